@@ -170,7 +170,7 @@ theorem ioUpdateGen_eq_model (io : IOStatic) (F G : ResFn) (root : Root) (dtImpo
 def scaleGen (L : Layout) (tab : NomTable) (X : Vec) : Vec :=
   (List.range X.length).map fun i =>
     match tab.lookup i with
-    | some ν => if i ≤ L.nX then X.getD i 0 * ν else X.getD i 0
+    | some ν => if i ≤ L.nX then (X.getD i 0 * ν) else X.getD i 0
     | none => X.getD i 0
 
 theorem scaleGen_eq_model (L : Layout) (tab : NomTable) (X : Vec) : scaleGen L tab X = scaleSubst L tab X := by
@@ -182,7 +182,7 @@ theorem scaleGen_eq_model (L : Layout) (tab : NomTable) (X : Vec) : scaleGen L t
        cases tab.lookup i <;> simp only [] <;> split_ifs <;> first | rfl | ring_nf | simp_all)
 
 /-- one derivative approximation row as written in the source -/
-def rowGen (d x xp dt : Rat) : Rat := modelRow d x xp dt
+def rowGen (d x xp dt : Rat) : Rat := (d - ((x - xp) / dt))
 
 theorem rowGen_eq_model (d x xp dt : Rat) : rowGen d x xp dt = modelRow d x xp dt := by
   first
@@ -191,7 +191,7 @@ theorem rowGen_eq_model (d x xp dt : Rat) : rowGen d x xp dt = modelRow d x xp d
 
 /-- `equality_constraints` of the initial NLP as assembled by `initialize()` -/
 def initConstraintsGen (M : Static) (F Finit G : ResFn) : SymExpr :=
-  symInitConstraints M F Finit G
+  (SymExpr.substScale (scaleGen M.L M.nom) true (SymExpr.vcat (SymExpr.vcat (symOf M.L F) (symOf M.L Finit)) (symOf M.L G)))
 
 theorem initConstraintsGen_eq_model (M : Static) (F Finit G : ResFn) :
     initConstraintsGen M F Finit G = symInitConstraints M F Finit G := by
@@ -202,7 +202,7 @@ theorem initConstraintsGen_eq_model (M : Static) (F Finit G : ResFn) :
 
 /-- `dae_residual` handed to `ca.rootfinder` (`__res_vals`) as assembled by `initialize()` -/
 def stepResidualGen (M : Static) (F G : ResFn) : SymExpr :=
-  symStepResidual M F G
+  (SymExpr.substScale (scaleGen M.L M.nom) true (SymExpr.vcat (SymExpr.vcat (symOf M.L F) (symDerRows M.L rowGen)) (symOf M.L G)))
 
 theorem stepResidualGen_eq_model (M : Static) (F G : ResFn) :
     stepResidualGen M F G = symStepResidual M F G := by
